@@ -1,3 +1,2 @@
--- Root of the library: everything that `lake build` (default target) must check.
+-- Root of the library. Theorem modules are built by name (see checklib/core.py setup()).
 import GluonModel.Generated.Registry
-import GluonModel.Theorems.C05
